@@ -415,6 +415,24 @@ theorem truncation_safe_dqm_length_checked_partial (parse : Bytes → Option (Bo
   · rw [if_pos hp]; exact hall k hk
   · subst hp; simpa using hall k hk
 
+/-- **the repaired CQM loader's tiling check** (`_open_archive`: the members, in the order of their shifted header offsets,
+    must tile the file from where the header ended up to the central directory; modelled as `openTiled`)
+    (i) ACCEPTS every archive the writer appended — no valid file is refused, the members are read as before —, and
+    (ii) REFUSES a non-empty archive that does not start where the header ended, whatever offset it was written for: in
+    particular the archive spelled by a payload, in the file cut right after it, which `zipfile` alone opens
+    (`embedded_archive_opens`).  So the counterexample class found this round is closed at model level; the general statement
+    "every proper prefix is refused whatever the payload" for the tiling loader is not proved (see the level note). -/
+theorem tiling_check_accepts_and_refuses (crc32 : Bytes → Nat) (inflate : Bytes → Option Bytes) (pre : Bytes) (zs : List ZEntry)
+    (hz : ∀ z ∈ zs, z.OK crc32 inflate) (hcount : zs.length < 256 ^ 2)
+    (hsize : pre.length + (zipLocals zs).length + (zipCD pre.length zs).length < 4294967295) :
+    openTiled crc32 inflate pre.length (pre ++ zipBytes pre.length zs) = some (zs.map fun z => (z.name, z.content)) ∧
+    ∀ (other : Bytes) (base start : Nat) (z : ZEntry) (zs' : List ZEntry), other.length ≠ start →
+      (∀ y ∈ z :: zs', y.OK crc32 inflate) → (z :: zs').length < 256 ^ 2 →
+      base + (zipLocals (z :: zs')).length + (zipCD base (z :: zs')).length < 4294967295 →
+      openTiled crc32 inflate start (other ++ zipBytes base (z :: zs')) = none :=
+  ⟨openTiled_zipBytes crc32 inflate pre zs hz hcount hsize,
+   fun other base start z zs' hs hz' hc hsz => openTiled_embedded_none crc32 inflate other base start z zs' hs hz' hc hsz⟩
+
 /-- **the three round-7 repairs are in the source under test** (flags regenerated by `harness/translators/fileconsts.py` from
     `_from_file_numpy`, `ConstrainedQuadraticModel.from_file` / `_open_archive` and `read_header`): the DQM loader refuses a
     short `BIAS` section (the loader of `truncation_safe_dqm_length_checked_partial`), the CQM loader checks that the archive
